@@ -283,18 +283,29 @@ def accept_implies_positive(ctx, rule='fresh-direction-has-positive-norm'):
         pn = [fn.locals[v]['name'] for v in fn.params]
         ptypes = [fn.locals[v]['type'] for v in fn.params]
         normp = [p for p, t in zip(pn, ptypes) if t in ('double &', 'float &', 'long double &')]
-        rets = [x for x in fn.walk() if x['k'] == 'ReturnStmt']
-        if len(normp) != 1 or not rets:
-            raise AnalysisBroken('%s: norm out-parameter / accepting return not identified' % fn.qname)
+        # early exits of the attempts loop = acceptance of the candidate: a return inside the loop, or a break of that loop
+        loops = [x for x in fn.walk() if x['k'] == 'ForStmt']
+        outer = loops[0] if loops else None
+        exits = []
+        if outer is not None:
+            for x in fn.walk(outer['body']):
+                if x['k'] == 'ReturnStmt':
+                    exits.append(x)
+                elif x['k'] == 'BreakStmt':
+                    encl = [a for a in fn.ancestors(x) if a['k'] in ('ForStmt', 'WhileStmt', 'DoStmt', 'SwitchStmt')]
+                    if encl and encl[0]['id'] == outer['id']:
+                        exits.append(x)
+        if len(normp) != 1 or outer is None or not exits:
+            raise AnalysisBroken('%s: norm out-parameter / accepting exit of the attempts loop not identified' % fn.qname)
         fnorm = normp[0]
-        for r in rets:
+        for r in exits:
             g = None
             for a in fn.ancestors(r):
                 if a['k'] == 'IfStmt' and fn.within(r, a['then']):
                     g = a
                     break
             if g is None:
-                problems.append('an accepting return is unconditional')
+                problems.append('an accepting exit is unconditional')
                 continue
             c = sym(fn, g['cond'], inline=False)
             ok = c[0] == '<' and c[1][0] == 'L' and c[2][0] == '*' and ('P', fnorm) in c[2][1:] and \
